@@ -133,6 +133,8 @@ EDITS = {
         ("st03", ST + "tree.rs", "DELAY_ADDITIONAL_OFFSET as u64 + *len", "*len", "verus", "state_tree"),
     ],
     "C12": [
+        ("at01", "crates/lib/mimium-lang/src/runtime/vm/program.rs", "        if self.type_table.len() < 256 {\n            self.type_table.push(ty);", "        if self.type_table.len() <= 256 {\n            self.type_table.push(ty);", "verus", "backend_state"),
+        ("at02", "crates/lib/mimium-lang/src/runtime/vm/program.rs", "        if let Some(idx) = self.type_table.iter().position(|&t| t == ty) {\n            return Some(idx as u8);", "        if let Some(idx) = self.type_table.iter().position(|&t| t == ty) {\n            return Some((idx as u8).saturating_sub(1));", "verus", "backend_state"),
         ("br01", "crates/lib/mimium-lang/src/compiler/bytecodegen.rs", "                Some(VmInstruction::BoxRelease(src_reg))", "                Some(VmInstruction::BoxClone(src_reg))", "verus", "backend_state"),
         ("br02", "crates/lib/mimium-lang/src/compiler/wasmgen.rs", "                func.instruction(&W::Call(self.rt.box_release));", "                func.instruction(&W::Call(self.rt.box_clone));", "verus", "backend_state"),
         ("br03", "crates/lib/mimium-lang/src/compiler/bytecodegen.rs", "                Some(VmInstruction::ReleaseUserSum(value_reg, size, type_idx))", "                Some(VmInstruction::ReleaseUserSum(value_reg, size, type_idx.saturating_sub(1)))", "verus", "backend_state"),
